@@ -612,13 +612,22 @@ def extra(ctx, known):
 
 
 MANIFEST = {
-    "text": "Executable Gallina model of rlib_geometry (Point ops, Line::new/between/dist/contains, parallel, intersect_ll, "
-            "intersect_cl, intersect_cc, Circle::position), ONE definition polymorphic in the scalar operations and in EPS. "
-            "The binary64 instance (Coq primitive floats) is compared with the Rust crate on every run: same kind, coordinates "
-            "bit for bit or within 1e-9; a model-independent spec_check in exact dyadic arithmetic decides for every sampled case "
-            "that each returned point is within 1e-7 of both primitives and that the kind is the exact kind away from the tolerance "
-            "bands (exact Pythagorean tangencies included). The 1e-7 floating-point bound (c10_rounding_partial) is NOT proved: it is "
-            "decided by that exact check and by an implementation-level search.",
+    "text": "Executable Gallina model of rlib_geometry (Point ops, Line::new/between/dist/contains, parallel, "
+            "intersect_ll, intersect_cl, intersect_cc, Circle::position), ONE definition polymorphic in the scalar "
+            "operations and in EPS. Theorems (15 pinned, instance R = Coq's real numbers, standard-library real axioms "
+            "only): c10_line_new_unit / c10_dist_euclidean (Line::new stores a unit normal, so dist is the Euclidean "
+            "distance), c10_between_contains, c10_contains, c10_ll_on_both (non-parallel: the returned point satisfies "
+            "both equations) / c10_ll_parallel_none, c10_cl_none / c10_cl_two_points (both points on the line and at "
+            "distance exactly r) / c10_cl_tangent (foot of the perpendicular, within EPS of the circle), c10_position, "
+            "c10_cc_kinds (kind follows the comparison of the centre distance with r1 +- r2 away from the EPS bands; "
+            "crossing points lie on both circles) with c10_cc_swap and c10_touch_points_on_both, and the two repaired "
+            "defects as statements about the old code (c10_old_tangent_refuted, c10_cc_old_crossing). The binary64 "
+            "instance (Coq primitive floats) is compared with the Rust crate on every run: same kind, coordinates bit for "
+            "bit or within 1e-9; a model-independent spec_check in exact dyadic arithmetic decides for every sampled case "
+            "that each returned point is within 1e-7 of both primitives and that the kind is the exact kind away from the "
+            "tolerance bands (exact Pythagorean tangencies included). The 1e-7 floating-point bound "
+            "(c10_rounding_partial) is NOT proved: it is decided by that exact check and by an implementation-level "
+            "search.",
     "level_note": "Trusted: Coq kernel + vm_compute incl. primitive floats; the Rust executor and the Python case printer. "
                   "PARTIAL: theorems hold for the real-number instance; rounding is not proved.",
     "technique": "Coq proof over a polymorphic Gallina model (instance R) + vm_compute correspondence of the binary64 instance "
